@@ -208,6 +208,48 @@ Theorem c08_upclose_slow_wf : forall D d cto tL id, d <= D -> tL <= D ->
 Proof. exact wf_upClose_slow. Qed.
 Print Assumptions c08_upclose_slow_wf.
 
+(* the explicit-flush handshake (Upstream.Flush / flushLoop): after any Flush call - for every
+   consistent valuation of the stream and run contexts, every deadline situation of the caller
+   (already done, done later, none), every select resolution, with u.flush instantaneous or held
+   up past the caller's deadline (the window) - the flush loop is back at its select (or has ended
+   with its run context) and a caller with a deadline has returned: the loop's select on the
+   result has the abandoned-caller arm (remoteDone) *)
+Theorem c08_flush_loop_returns :
+  forallb (fun fs => forallb (fun ctx => forallb (fun c =>
+     (let w := run (init 60 fs [flushServe]) [(ESpawn (upFlushCaller ctx), c); (ETick 300, c)] in
+      loop_idle (nth 0 (procs w) dummy) &&
+      (returned (nth 1 (procs w) dummy) || match ctx with None => true | Some _ => false end)) &&
+     (let w := run (init 60 fs [lockHolder; flushServe]) (window_events ctx c) in
+      loop_idle (nth 1 (procs w) dummy) &&
+      (returned (nth 2 (procs w) dummy) || match ctx with None => true | Some _ => false end)))
+     (seq 0 6)) flush_ctxs) flush_flagsets = true.
+Proof. vm_compute. reflexivity. Qed.
+Print Assumptions c08_flush_loop_returns.
+
+(* ... without that arm one abandoned Flush wedges the stream for ever *)
+Theorem c08_flush_noRemoteDone_refuted :
+  (let w := run (init 60 [] [lockHolder; flushServe_noRemoteDone]) (window_events (Some 100) 0 ++ [(ETick far, 0%nat)]) in
+   loop_idle (nth 1 (procs w) dummy) = false /\ result (nth 2 (procs w) dummy) = OCtx /\
+   fl_mem FFlushReady (flags w) = false) /\
+  (let w := run (init 60 [] [lockHolder; flushServe]) (window_events (Some 100) 0 ++ [(ETick far, 0%nat)]) in
+   loop_idle (nth 1 (procs w) dummy) = true /\ result (nth 2 (procs w) dummy) = OCtx).
+Proof. exact flush_noRemoteDone_refuted. Qed.
+Print Assumptions c08_flush_noRemoteDone_refuted.
+
+(* the single dispatch goroutine and the call inbox: calls nobody collects are dropped without
+   waiting, so a flood of them is a dispatcher step in the sense of c08_dispatcher_never_stuck and
+   the reply behind it is delivered at once; with a wait for room the dispatcher stops and the
+   request, although answered, runs into its deadline *)
+Theorem c08_call_inbox_flood :
+  (let w := run (init 60 [FStConnected] [connRequest 2 (Some 300) 1; flood dispatchCallK 1100 (dispatchReplyK 1 (Ret ONil))]) [(ETick 300, 0%nat)] in
+   map result (procs w) = [ONil; ONil] /\ map ret_at (procs w) = [Some 0; Some 0]) /\
+  (let w := run (init 60 [FStConnected] [connRequest 2 (Some 300) 1; flood dispatchCallK_wait 10 (dispatchReplyK 1 (Ret ONil))]) [(ETick 300, 0%nat); (ETick far, 0%nat)] in
+   result (nth 0 (procs w) dummy) = OCtx /\ returned (nth 1 (procs w) dummy) = false) /\
+  nowait fast_lock (flood dispatchCallK 1100 (dispatchReplyK 1 (Ret ONil))) = true /\
+  nowait fast_lock (dispatchCallK_wait (Ret ONil)) = false.
+Proof. exact call_inbox_flood. Qed.
+Print Assumptions c08_call_inbox_flood.
+
 (* F7 is repaired in /repo; the old drain loop stays refuted (regression guard for the model) *)
 Theorem c08_F7_old_refuted :
   wf 300 None (upClose_F7 (Some 300) 200 1) = false /\
